@@ -25,6 +25,11 @@ def c3(ctx):
     state.shared_state(ctx, ["simfile.timing.engine:TimingEngine.__init__", "simfile.timing.engine:TimingEngine.beat_at"], "the beats an engine reports depend on its own timing data only")
     timing.warp_union(ctx)
 
+def c4(ctx):
+    timing.dims_time(ctx)
+    timing.beat_construction(ctx)
+
+
 def c_api(ctx):
     baseline.surface(ctx, "C12: documented surface", modules=['simfile.timing.engine', 'simfile.timing'])
 
@@ -32,5 +37,6 @@ CLAUSES = [
     ("C12.1", "search order = build order for _tagged_times (R-BISECT)", c1),
     ("C12.2-3", "dimensions of beats_until / beat_at; guard sets; default tag", c2),
     ("C12.4", "no process-wide state behind the engine; warp segments act as their union (shared with C11) (R-STATE, R-TABLE)", c3),
+    ("C12.5", "the timeline beat_at searches is built from time_until (no time inside a warp, pause lengths under the tag guard) and from Beats that are exact or tick-snapped (shared with C11, C14)", c4),
     ("C12.api", "public surface: signatures and defaults, constants, enumerations, blank templates, base classes as confirmed (R-API)", c_api),
 ]
